@@ -23,6 +23,7 @@ sys.path.insert(0, ROOT)
 from symx import core  # noqa: E402
 
 KNOWN_FILE = os.path.join(ROOT, "known_findings.json")
+MAX_REPLAYS_PER_FN = 3  # further counterexamples of the same harness function are counted, not replayed one by one
 
 
 def load_known(prop):
@@ -164,9 +165,16 @@ def main(argv=None):
     os.makedirs(os.path.join(ROOT, "replays"), exist_ok=True)
     violations, inconcl, errors, known_lines = [], [], [], []
     confirmed_known = set()
-    for r in results:
+    replayed_per_fn = {}
+    unreplayed = 0
+    for r in sorted(results, key=lambda r: r["key"]):
         confirm = r["mode"].get("confirm")
         if r["result"] == "cex":
+            fk = (r["fn"], confirm)
+            replayed_per_fn[fk] = replayed_per_fn.get(fk, 0) + 1
+            if replayed_per_fn[fk] > MAX_REPLAYS_PER_FN:
+                unreplayed += 1
+                continue
             tag = "%s_%s_%s" % (prop, r["fn"], hashlib.sha256((r["key"] + str(confirm)).encode()).hexdigest()[:10])
             path = os.path.join(ROOT, "replays", tag + ".json")
             json.dump(dict(property=prop, fn=r["fn"], key=r["key"], params=r["params"], values=r["values"],
@@ -238,6 +246,8 @@ def main(argv=None):
             "instance_results": {k: sum(1 for r in main_results if r["result"] == k) for k in
                                  ("holds", "cex", "inconclusive", "error")},
             "known_findings_confirmed": sorted(confirmed_known),
+            "slowest_instances": [[r["key"], round(r.get("task_wall_s", 0), 1), r.get("paths")] for r in
+                                  sorted(results, key=lambda r: -r.get("task_wall_s", 0))[:5]],
             "engine": "symx (z3 %s)" % __import__("z3").get_version_string(),
             "checker_cmd": "./check %s --tier %s" % (prop, a.tier),
             "trusted_base": ["z3", "symx proxy semantics (validated by symx.selfcheck)", "reference models in harness/%s.py" % prop.lower()],
@@ -267,6 +277,10 @@ def main(argv=None):
         ev["coverage"]["solver_time_s"], wall, ev["coverage"]["instance_results"]["holds"],
         ev["coverage"]["instance_results"]["cex"], ev["coverage"]["instance_results"]["inconclusive"],
         ev["coverage"]["instance_results"]["error"]))
+    if unreplayed:
+        print("(%d further counterexamples of the same harness functions were not replayed individually)" % unreplayed)
+    if os.environ.get("VERIF_VERBOSE"):
+        print("slowest:", ev["coverage"]["slowest_instances"])
     if violations:
         for r in violations:
             print("VIOLATION property=%s replay=%s" % (prop, r["replay_path"]))
